@@ -28,6 +28,7 @@ KEY_MT = "C17-compressSequences-nbworkers-null-blockstate"
 KEY_COLLECT = "C17-generateSequences-leaves-collector-armed"
 KEY_DICTHDR = "C17-validation-counts-dictionary-header"
 KEY_SESSION = "C17-compressSequences-leaves-session-open"
+KEY_FALLBACK_REP = "C17-producer-fallback-stale-third-repcode"
 INVALID = "External_sequences_are_not_valid"
 PRODFAIL = "Block-level_external_sequence_producer_returned_an_error_code"
 
@@ -801,6 +802,10 @@ def judge_q(env, c, rres, mout):
         ctx.count(("wrap-rejected", real[1][:12]) + sig_extra)      # refusing a list whose 32-bit sums wrap is always right
         return
     wkey = KEY_WRAP if wrap else None
+    if wrap and not ap["val"] and c["expect"] != "valid":
+        # a field whose 32-bit sum wraps (offset 2^32-3 becomes code 0 ...), validation off: documented undefined behaviour
+        ctx.count(("wrap-without-validation", real[0]) + sig_extra, nontrivial=False)
+        return
     if mod[0] == "OOB":
         # undefined behaviour predicted: an error return is fine; anything else is reported (validation on) / ignored (validation off)
         if real[0] == "OK" and ap["val"]:
@@ -1230,7 +1235,10 @@ def run_units(env, rng, n):
             reps[rng.randrange(3)] = reps[rng.randrange(3)]
         raw = rng.choice(reps + [reps[0] - 1, reps[0] + 1, reps[1] - 1, rng.choice(vals), max(1, reps[0] - 1)])
         raw = max(0, min(raw, M32 - 1))
-        lines.append("U f%d f %d %d.%d.%d %d" % (i, raw, reps[0], reps[1], reps[2], rng.choice([0, 1])))
+        ll0 = rng.choice([0, 1])
+        if (raw + 3) % M32 == 0:
+            ll0 = 1       # offBase wraps to 0: with ll0 == 0 ZSTD_updateRep indexes rep[0xFFFFFFFF] (outside the contract of the static function: the process dies)
+        lines.append("U f%d f %d %d.%d.%d %d" % (i, raw, reps[0], reps[1], reps[2], ll0))
     for i, sz in enumerate([0, 1, 2, 3, 5, 6, 1023, 1024, 1025, 3071, 3072, 131071, 131072, 131073, 1000000, M32 - 1] + [rng.randrange(1 << 22) for _ in range(20)]):
         lines.append("U b%d b %d" % (i, sz))
     ppbuf = {}
@@ -1600,6 +1608,62 @@ def producer_many_short(env, rng):
             env.ctx.count(("producer-splitter", nseq > 10000, p["validateSequences"], p.get("maxBlockSize", 0)), nontrivial=True)
 
 
+def producer_fallback_history(env, rng, n):
+    """a block that falls back to the internal parser between two producer blocks: the internal parsers below btopt keep two
+    repeat offsets only, the copier of the next producer block consults three.  Block 0 (producer) leaves the history
+    [c, b, a]; block 1 (producer error -> internal parser) is `period` bytes repeated, so the decoder's history becomes
+    [period, c, b]; block 2 (producer) uses offset a, b or c again after literals.  All parses are valid: the frame must
+    decode to the source."""
+    lines, meta = [], {}
+    for i in range(n):
+        a, b, c = rng.sample([5, 9, 17, 37, 64, 90], 3) if i else (5, 37, 64)
+        period = rng.choice([150, 200, 333])
+        level = rng.choice([1, 3, 5, 7, 12]) if i else 1
+        x = bytearray()
+
+        def run(seqs, size):
+            start = len(x)
+            out = []
+            for off, ll, ml in seqs:
+                x.extend(rng.randbytes(ll))
+                for _ in range(ml):
+                    x.append(x[len(x) - off])
+                out.append((off, ll, ml))
+            tail = size - (len(x) - start)
+            x.extend(rng.randbytes(tail))
+            return out + [(0, tail, 0)]
+        b0 = run([(a, 120, 100), (b, 3, 100), (c, 3, 100), (a, 2, 60), (b, 2, 60), (c, 2, 60)], 1024)
+        chunk = rng.randbytes(period)
+        x.extend((chunk * (1024 // period + 1))[:1024])
+        use = rng.choice([a, b, c]) if i else a
+        b2 = run([(use, rng.randint(1, 9), 40), (rng.choice([a, b, c]), 2, 30), (use, 1, 25)], 150)
+        p = {"level": level, "maxBlockSize": 1024, "windowLog": 17, "validateSequences": rng.choice([0, 1]) if i else 0, "seqProducerFallback": 1,
+             "blockSplitter": 2, "extRepSearch": 1}
+        sc = "S%s;E%d;S%s" % (seqs_str(b0), (1 << 64) - 1, seqs_str(b2))
+        meta["fh%d" % i] = (p, sc, bytes(x), (a, b, c, period, use))
+        lines.append("P fh%d %s %s %s 0" % (i, codec.params_str(p), sc, bytes(x).hex()))
+    out, crashes = env.impl(lines)
+    for i, rc, err in crashes:
+        p, sc, x, info = meta.get(i, ({}, "", b"", None))
+        env.report(dict(kind="producer", params=p, script=sc, input_hex=x.hex(), rc=rc, stderr=str(err)[-400:]), what="producer/fallback/producer frame crashed: %s" % str(err)[-200:].replace("\n", " "))
+    for i, (p, sc, x, info) in meta.items():
+        r = out.get(i)
+        if r is None:
+            continue
+        t = r.split(" ")
+        if t[0] == "OK" and "d=ok" in t:
+            env.ctx.count(("producer-fallback-history", p["level"] >= 12, p["validateSequences"]), nontrivial=True)
+        elif t[0] == "ERR" and p["validateSequences"] and not getattr(env, "prodpos_fixed", True):
+            env.ctx.count(("producer-fallback-history", "refused-by-position-finding"), nontrivial=False)
+        else:
+            env.report(dict(kind="producer", params=p, script=sc, input_hex=x.hex(), offsets=info, result=" ".join(t[:2] if t[0] != "OK" else t[2:])[:300]),
+                       key=KEY_FALLBACK_REP if t[0] == "OK" else None,
+                       what="producer block / block falling back to the internal parser / producer block, all three valid parses (history offsets %s, fallback block of "
+                            "period %d, third block uses offset %d): %s - the internal parser leaves its third repeat offset stale and the copier of the next producer "
+                            "block codes an offset against it" % (info[:3], info[3], info[4], "frame decodes to OTHER bytes (%s)" % [q for q in t if q.startswith("d=")]
+                                                                   if t[0] == "OK" else " ".join(t[:2])))
+
+
 def run_producer(env, rng, n):
     ctx = env.ctx
     cases = []
@@ -1831,7 +1895,10 @@ def judge_producer(env, c, mout, rres):
         # an answer that passes the copier without being a valid parse may yield a corrupt frame ("data corruption may occur if the
         # parse is not valid"): only calls whose stored answers were all valid parses are judged
         if stored_valid:
-            env.report(rp, what="compress2 with a sequence producer giving valid parses: frame does not decode to the source (%s, R %s)" % (dtok, rres[:1] if rres else None))
+            after_fallback = any(v == "FALLBACK" for v in verdicts[:-1]) and "STORE" in verdicts[verdicts.index("FALLBACK"):]
+            env.report(rp, key=KEY_FALLBACK_REP if after_fallback and dtok and dtok[0] == "d=diff" else None,
+                       what="compress2 with a sequence producer giving valid parses: frame does not decode to the source (%s, R %s)%s"
+                            % (dtok, rres[:1] if rres else None, "; a producer block follows a block that fell back to the internal parser" if after_fallback else ""))
         else:
             ctx.count(sig + ("stored-invalid-parse",), nontrivial=False)
         return
@@ -1931,6 +1998,7 @@ def run(ctx):
     producer_huge_lengths(env)
     detect_producer_position(env)
     producer_many_short(env, rng)
+    producer_fallback_history(env, rng, 12 if quick else 100)
     run_producer(env, rng, 60 if quick else 600)
     run_context_histories(env, rng, 24 if quick else 200)
     ctx.notes["origins"] = {}
